@@ -86,6 +86,7 @@ Inductive op :=
 | UpdateNode (n : N)
 | UpdateEdge (e : N)
 | BatchCreateEdges (l : list (N * N * bool))   (* batch_create_edges: validate all, reserve an id block, create *)
+| Reopen      (* GraphEngine::with_store on the same store: both id counters are recovered as the highest id present *)
 | Rejected.   (* any call the engine refused with ConstraintViolation: a failed call changes nothing *)
 Inductive res := RId (i : N) | ROk | RNoNode (n : N) | RNoEdge (e : N) | RErr | RIds (l : list N) | RRejected.
 
@@ -125,6 +126,8 @@ Definition apply (s : store) (o : op) : store * res :=
   | CreateEdge f t d => create_edge_op s f t d
   | BatchCreateEdges l => batch_create s l
   | Rejected => (s, RRejected)
+  | Reopen => (ST (snodes s) (sout s) (sinl s) (sedges s)
+                  (fold_left N.max (snodes s) 0) (fold_left N.max (map fst (sedges s)) 0), ROk)
   | CreateEdgeId e f t d =>
       if negb (node_exists s f) then (s, RNoNode f)
       else if negb (node_exists s t) then (s, RNoNode t)
